@@ -201,6 +201,33 @@ def check_raise(ctx, contract, values, exc, fdef):
              tuple(contract.props))
 
 
+_PAR = {}
+
+
+def _par_init(modname, qualname):
+  """Worker initialiser (fork): the sidecars are already loaded."""
+  sp = specmod.REGISTRY[modname]
+  contract = sp.contracts[qualname]
+  src = WORLD.source(modname)
+  fdef, cs = src.find(contract.fn_qualname)
+  _PAR['args'] = (sp, contract, src, fdef, cs, modname)
+
+
+def _par_path(prefix):
+  sp, contract, src, fdef, cs, modname = _PAR['args']
+  unit = Unit(WORLD, sp, contract)
+  unit.fdef = fdef
+  unit.vacuous = False
+  unit.modname = modname
+  unit.sha256 = src.sha256
+  try:
+    ctx = run_path(unit, src, cs, fdef, prefix)
+  except EngineError as e:
+    return {'error': str(e)}
+  return {'obligations': unit.obligations, 'pending': ctx.pending,
+          'outcome': unit.path_outcomes[-1], 'vacuous': unit.vacuous}
+
+
 def verify_function(modname, qualname):
   sp = specmod.REGISTRY[modname]
   contract = sp.contracts[qualname]
@@ -212,20 +239,58 @@ def verify_function(modname, qualname):
   unit.modname = modname
   unit.sha256 = src.sha256
   t0 = time.time()
-  pending = [[]]
-  while pending:
-    prefix = pending.pop()
-    ctx = run_path(unit, src, cs, fdef, prefix)
-    pending.extend(ctx.pending)
-    unit.paths += 1
-    if os.environ.get('MMVERIF_TRACE') and unit.paths % 5 == 0:
-      import sys
-      print('  [trace] %s paths=%d pending=%d obligations=%d %.0fs last=%s' % (
-          qualname, unit.paths, len(pending), len(unit.obligations),
-          time.time() - t0, unit.path_outcomes[-1]), file=sys.stderr,
-            flush=True)
-    if unit.paths > MAX_PATHS:
-      raise EngineError('%s: more than %d paths' % (qualname, MAX_PATHS))
+  workers = int(os.environ.get('MMVERIF_PATH_WORKERS', '0') or 0) or min(
+      16, os.cpu_count() or 4)
+  # first path in-process (most functions have a handful of paths)
+  ctx = run_path(unit, src, cs, fdef, [])
+  pending = list(ctx.pending)
+  unit.paths = 1
+  if len(pending) <= 3 or workers <= 1:
+    while pending:
+      prefix = pending.pop()
+      ctx = run_path(unit, src, cs, fdef, prefix)
+      pending.extend(ctx.pending)
+      unit.paths += 1
+      if unit.paths > MAX_PATHS:
+        raise EngineError('%s: more than %d paths' % (qualname, MAX_PATHS))
+    unit.gen_time = time.time() - t0
+    return unit
+  # many paths: explore prefixes in forked workers
+  import concurrent.futures as cf
+  import multiprocessing as mp
+  seq = 0
+  with cf.ProcessPoolExecutor(max_workers=workers,
+                              mp_context=mp.get_context('fork'),
+                              initializer=_par_init,
+                              initargs=(modname, qualname)) as ex:
+    inflight = {}
+    order = []
+    while pending or inflight:
+      while pending and len(inflight) < workers * 2:
+        p = pending.pop()
+        fu = ex.submit(_par_path, p)
+        inflight[fu] = (seq, p)
+        seq += 1
+      done, _ = cf.wait(list(inflight), return_when=cf.FIRST_COMPLETED)
+      for fu in done:
+        sq, p = inflight.pop(fu)
+        r = fu.result()
+        if 'error' in r:
+          raise EngineError(r['error'])
+        order.append((p, r))
+        pending.extend(r['pending'])
+        unit.paths += 1
+        if unit.paths > MAX_PATHS:
+          raise EngineError('%s: more than %d paths' % (qualname, MAX_PATHS))
+  # deterministic order: by decision prefix
+  order.sort(key=lambda pr: [int(x) for x in pr[0]])
+  for p, r in order:
+    tag = ''.join(str(int(x)) for x in p)
+    for o in r['obligations']:
+      o.name = unit.unique(o.name.split('~')[0])
+      unit.obligations.append(o)
+    unit.path_outcomes.append(r['outcome'])
+    unit.vacuous = unit.vacuous or r['vacuous']
   unit.gen_time = time.time() - t0
   return unit
 
